@@ -168,6 +168,13 @@ HUGE_USES = [".word 1 << hh", ".word 1 >> hh", ".word 1 _ hh", ".word hh << 1", 
              ".include <hh>", ".error hh", "ldf #hh, ac0", "mul #hh, r1", "clr %hh", "mov (%hh), r0",
              # a skip between the labels of a link expression in which the base cancels (its length is taken symbolically)
              ".link 1000 + e7 - s7\ns7: . = . + hh\ne7: nop", ".link 1000 + e7 - s7\ns7: nop\n. = s7 + hh\ne7: nop", ".link 1000\n.blkb e7 - s7\ns7: . = . + hh\ne7: nop"]
+# (m) values at and next to the boundary of every field width reaching every consumer, also several operands in one statement
+EDGE = [-65537, -65536, -32769, -32768, -257, -256, -129, -128, -64, -1, 0, 1, 7, 8, 38, 39, 40, 41, 63, 64, 65, 127, 128, 129, 255, 256, 257, 511, 512,
+        1599, 1600, 32767, 32768, 32769, 63999, 64000, 65535, 65536, 65537, 2 ** 31 - 1, 2 ** 31, 2 ** 32 - 1, 2 ** 32]
+EDGE_USES = HUGE_USES + [".rad50 <hh><47>", ".rad50 <hh>/99/", ".rad50 /9/<hh>/9/", ".rad50 /99/<hh>", ".rad50 <hh><hh><hh>", ".ascii <hh><hh>", ".asciz /a/<hh>", ".byte hh, hh", ".word hh, hh",
+                         ".dword hh, hh", "cmp #hh, #hh", "mov hh(r1), hh(r2)", "xfc hh", "sys hh", "ash #hh, r0", "sob r1, . - hh", "br . + hh", "br . - hh", "jmp hh(pc)", ".odd\n.byte hh\n.even",
+                         "make_wav \"t.wav\", \"n\"<hh>", ".word 'a + hh", ".word ^C<hh>", ".word hh _ -hh", ".word hh % hh", ".word hh / hh"]
+EDGE_BIG_WORK = 70000
 # uses whose work is proportional to the value: only with the moderate values (resource guard, see ASSUMPTIONS)
 HUGE_SIZE_USES = {".blkb hh", ".blkw hh", ".repeat hh { nop }", ". = . + hh", ". = hh", ".link 1000\nnop\n. = hh"}
 
@@ -215,6 +222,8 @@ def cases(tier):
         yield {"k": "charsets", "lo": i, "hi": i + 12}
     for h in range(len(HUGE)):
         yield {"k": "huge", "h": h}
+    for e in range(len(EDGE)):
+        yield {"k": "edge", "e": e}
 
 
 class _Sink(io.TextIOBase):
@@ -601,6 +610,17 @@ def check(case, r, tier):
             for order in (0, 1):
                 text = (defs + "\n" + use if order == 0 else use + "\n" + defs) + "\n"
                 judge(text, r, text, True, tree=TREE)
+        return
+    if k == "edge":
+        v = EDGE[case["e"]]
+        lit = ("%d." % v) if v >= 0 else ("0 - %d." % -v)
+        for use in EDGE_USES:
+            if use in HUGE_SIZE_USES | {".blkb hh", ".blkw hh", ".repeat hh { nop }", ". = . + hh"} and abs(v) > EDGE_BIG_WORK:
+                continue
+            for form in (0, 1, 2):
+                # written as a literal, through a symbol defined above, through a symbol defined below
+                text = (use.replace("hh", "<%s>" % lit) if form == 0 else ("hh = %s\n" % lit + use if form == 1 else use + "\nhh = %s" % lit)) + "\n"
+                judge(text, r, text, False, tree=TREE)
         return
     if k == "faults":
         for e in faults.E:
